@@ -226,6 +226,7 @@ class EvDomain(Domain):
             loc = ex.loc_of(obj, st, fr) if obj.k in ('ref', 'member') else None
             if loc is not None:
                 held = ex.read(loc, st, obj)
+                self._held_before = held            # for domains that model the deleter: what reset() / release() found in the pointer
                 ex.write(loc, (vals[0] if (base == 'reset' and vals and vals[0] is not None) else Lin.const(0)), st, n)
                 if base == 'release': return held
         r = self.call_result(ex, n, q, base, on, ov, vals, st, fr)
